@@ -881,9 +881,15 @@ def canon_lambda(body_fn):
 
 
 def reduce_sym(ex, x, ax, name, kind="real"):
-    """reduction along one symbolic axis: uninterpreted symbol over a Lambda column"""
-    f = UF(name, ArrS, IntSort(), RealSort())
+    """reduction along one symbolic axis: uninterpreted symbol over a Lambda column (integer-valued for integer tensors)"""
     rem = x.axes[:ax] + x.axes[ax + 1:]
+    if name == "sum_red" and x.kind == "int":
+        fi = UF("isum_red", ArraySort(IntSort(), IntSort()), IntSort(), IntSort())
+
+        def elem_i(*idx):
+            return fi(canon_lambda(lambda i: toI(x.elem(*(idx[:ax] + (i,) + idx[ax:])))), toI(x.axes[ax].size))
+        return T(rem, elem_i, kind="int") if rem else elem_i()
+    f = UF(name, ArrS, IntSort(), RealSort())
 
     def elem(*idx):
         return f(canon_lambda(lambda i: toR(x.elem(*(idx[:ax] + (i,) + idx[ax:])))), toI(x.axes[ax].size))
